@@ -253,10 +253,13 @@ func c17Run(c *fw.Ctx) {
 		}
 	}
 	c17Concurrent(c)
-	// through the server: KEYS and SCAN MATCH against a store holding all keys of length <= 2
+	// through the server: KEYS and SCAN MATCH against a store holding all keys of length <= 2.
+	// The server part's alphabet also has '/', ':' and '-' (separators of real key names,
+	// characters that other globbing libraries treat specially).
+	salpha := append(append([]byte{}, alpha...), '/', ':', '-')
 	var small []string
-	eachString(alpha, 2, func(b []byte) { small = append(small, string(b)) })
-	eachString(alpha, 3, func(b []byte) {
+	eachString(salpha, 2, func(b []byte) { small = append(small, string(b)) })
+	eachString(salpha, 3, func(b []byte) {
 		if !c.Mine() {
 			return
 		}
@@ -290,7 +293,7 @@ func c17Replay(raw json.RawMessage) (string, bool, error) {
 	alpha := []byte{'a', 'b', '*', '?', '.', '+', '(', '|', '$', ')', '^', '{', '}'}
 	if cs.Kind == "server" {
 		var small []string
-		eachString(alpha, 2, func(b []byte) { small = append(small, string(b)) })
+		eachString(append(append([]byte{}, alpha...), '/', ':', '-'), 2, func(b []byte) { small = append(small, string(b)) })
 		clause, detail := c17Server(cs.Pattern, small)
 		return fmt.Sprintf("pattern=%q clause=%q %s", cs.Pattern, clause, detail), clause != "", nil
 	}
